@@ -37,12 +37,46 @@ def return_rule(chk, repo, rid, q, psi='psi'):
             break
         for n in ast.walk(s):
             if isinstance(n, ast.Attribute) and isinstance(n.value, ast.Name) and n.value.id == psi and \
-                    n.attr in ('A', 'qD', 'qd'):
+                    n.attr in ('A', 'qD'):
                 first_use = n
     chk.ob(rid, where(repo, fi, defs[0] if defs else fi.node), f'{fi.name}: the input is normalised before any tensor of '
            f'{psi} is read', first_use is None and bool(defs) and defs[0] in fi.node.body,
            f'first use at line {first_use.lineno}' if first_use is not None else '', key=f'{rid}|{q}|ret-order')
-    return 2
+    # ... and before it is changed in any other way: a call that may write psi ahead of the normalisation makes
+    # the returned factor the norm of something else
+    eng = Engine(repo)
+    early = []
+    for s in fi.node.body:
+        if s in defs:
+            break
+        for c in ast.walk(s):
+            if not isinstance(c, ast.Call):
+                continue
+            fn = norm(c.func)
+            tgt, pname = None, None
+            if fn.startswith(psi + '.') and fn.count('.') == 1:
+                ci = repo.cls('MPS')
+                tgt, pname = ci.methods.get(fn.split('.')[1]), 'self'
+                if tgt is None:
+                    early.append(f'`{norm(c)[:50]}` (unresolved method) at line {c.lineno}')
+                    continue
+            elif any(isinstance(z, ast.Name) and z.id == psi for z in c.args):
+                r = repo.resolve_name(fi.module, fn) if fn.isidentifier() else None
+                tgt = r[1] if r and r[0] == 'func' else None
+                if tgt is None:
+                    if fn not in ('len', 'print', 'isinstance', 'id', 'type'):
+                        early.append(f'`{norm(c)[:50]}` (unresolved callee receives {psi}) at line {c.lineno}')
+                    continue
+                k = [i for i, z in enumerate(c.args) if isinstance(z, ast.Name) and z.id == psi][0]
+                pname = tgt.params[k] if k < len(tgt.params) else None
+            if tgt is None:
+                continue
+            res = eng.analyse(tgt)
+            if any(l.is_param() and l.root[1] == pname and l.kind not in ('imm', 'callable', 'rng') for l in res['writes']):
+                early.append(f'`{norm(c)[:50]}` at line {c.lineno} may write {psi}')
+    chk.ob(rid, where(repo, fi, defs[0] if defs else fi.node), f'{fi.name}: nothing changes {psi} before the normalisation '
+           f'whose factor is returned', not early, '; '.join(early), key=f'{rid}|{q}|ret-first')
+    return 3
 
 
 def run(chk, repo, tier):
